@@ -365,7 +365,7 @@ func runHistory(c *Ctx, h int) {
 }
 
 func runWalletHist(c *Ctx) {
-	n := 8
+	n := 6
 	if c.Thorough {
 		n = 220
 	}
